@@ -82,6 +82,68 @@ def run_macro_case(cid, spec):
     return res
 
 
+# ------------------------------------------------------------------ parameters in every syntactic position
+def substitution_cases():
+    """(name, program with a macro, the same program with the call replaced by the body by hand)."""
+    def pair(name, params, body, args, inlined):
+        macro = f"macro m({', '.join(params)}) {{ {body} }}\ndef 0 {{ before(); ~m({', '.join(args)}); after(); end; }}\n"
+        plain = f"def 0 {{ before(); {inlined} after(); end; }}\n"
+        return ("subst", name), (macro, plain)
+    yield pair("bit-test-and-set", ["$v"], "if ($v[3]) { a(); } $v[2] = 1;", ["$OTHER"], "if ($OTHER[3]) { a(); } $OTHER[2] = 1;")
+    yield pair("bit-test-and-set-performance-list", ["$v"], "if ($v[3]) { a(); } $v[2] = 1;", [impl.PERF],
+               f"if ({impl.PERF}[3]) {{ a(); }} {impl.PERF}[2] = 1;")
+    yield pair("switch-var", ["$v"], "switch ($v) { case 1: a(); break; default: b(); }", ["$SW"], "switch ($SW) { case 1: a(); break; default: b(); }")
+    yield pair("scn-and-dungeon-mode", ["$v", "$d"], "if (scn($v) > [1, 2]) { a(); } switch (dungeon_mode($d)) { case 1: b(); break; }",
+               ["$SCN", "5"], "if (scn($SCN) > [1, 2]) { a(); } switch (dungeon_mode(5)) { case 1: b(); break; }")
+    yield pair("value-of", ["$v", "$w"], "if ($v == value($w)) { a(); } $v += value($w); $w = 3;", ["$A", "$B"],
+               "if ($A == value($B)) { a(); } $A += value($B); $B = 3;")
+    yield pair("case-headers", ["$c", "$s"], "switch ($X) { case $c: a(); break; case > $c: b(); break; case == value($s): c(); break; }",
+               ["7", "$OTHER"], "switch ($X) { case 7: a(); break; case > 7: b(); break; case == value($OTHER): c(); break; }")
+    yield pair("context-targets", ["$t"], "with (actor $t) { a(); } b<object $t>(1);", ["ACTOR_X"], "with (actor ACTOR_X) { a(); } b<object ACTOR_X>(1);")
+    yield pair("same-parameter-twice", ["$p"], "a($p, $p); if ($p == 1) { b($p); }", ["1"], "a(1, 1); if (1 == 1) { b(1); }")
+    yield pair("position-mark-and-strings", ["$m", "$l"], "move($m, 1); say($l);", ["Position<'pm', 1, 2.5>", "{english='e', german='g'}"],
+               "move(Position<'pm', 1, 2.5>, 1); say({english='e', german='g'});")
+    yield pair("assign-forms", ["$v"], "clear $v; init $v; $v = scn[1, 2]; reset scn($v); adventure_log = $v;", ["$Q"],
+               "clear $Q; init $Q; $Q = scn[1, 2]; reset scn($Q); adventure_log = $Q;")
+    yield pair("loop-headers", ["$v", "$n"], "while ($v < $n) { a(); } for ($v = 0; $v < $n; $v += 1;) { b(); }", ["$I", "3"],
+               "while ($I < 3) { a(); } for ($I = 0; $I < 3; $I += 1;) { b(); }")
+
+
+def classify(v):
+    """Root cause grouping for known_findings.json (development time)."""
+    if "bit-test-and-set-performance-list" in v.get("case_id", "") and v["kind"] == "differs-from-inlined-program":
+        return "C05-performance-list-as-macro-argument"
+    return None
+
+
+def run_subst_case(cid, case):
+    macro_text, plain_text = case
+    try:
+        plain = impl.compile_es(plain_text)
+    except Exception as e:
+        return {"outcome": "harness-error", "harness_error": f"hand-inlined program rejected: {e}\n{plain_text}"}
+    try:
+        comp = impl.compile_es(macro_text)
+    except Exception as e:
+        return {"outcome": "violation", "nt": cid,
+                "viol": {"kind": "reject", "detail": {"error": f"{type(e).__name__}: {e}"[:300], "source": macro_text, "inlined": plain_text}}}
+    m1, e1 = lts.machine(comp.routine_ops, jump_index_last=True)
+    m2, e2 = lts.machine(plain.routine_ops, jump_index_last=True)
+    viols = []
+    st = tr = 0
+    for a, b in zip(e1, e2):
+        ok, s_, t_, rel, mm = lts.product(m1, a, m2, b)
+        st += s_
+        tr += t_
+        if not ok:
+            viols.append({"kind": "differs-from-inlined-program", "detail": {"source": macro_text, "inlined": plain_text, "mismatch": mm.as_dict(),
+                                                                             "compiled": dump_ops(comp.routine_ops), "inlined_compiled": dump_ops(plain.routine_ops)}})
+    res = {"outcome": "violation" if viols else "ok", "states": st, "transitions": tr, "nt": cid}
+    if viols:
+        res["viol"] = viols
+    return res
+
+
 # ------------------------------------------------------------------ import resolution
 def lib_text(tag):
     return f"macro which() {{\n    used_{tag}();\n}}\n"
@@ -230,6 +292,8 @@ def run_import_case(cid, spec):
 def run_case(cid, spec):
     if cid[0] == "import":
         return run_import_case(cid, spec)
+    if cid[0] == "subst":
+        return run_subst_case(cid, spec)
     return run_macro_case(cid, spec)
 
 
@@ -244,6 +308,7 @@ def run(tier, seed):
 
     def make_cases():
         yield from import_cases()
+        yield from substitution_cases()
         yield from GM.cases(max_m, seed, all_layouts=all_layouts)
     try:
         total = runner.explore(make_cases, run_case, timeout=30.0)
